@@ -526,6 +526,7 @@ pub fn replay(case: &serde_json::Value) -> Option<(String, String)> {
         (Outcome::Ok(x), Outcome::Ok(y)) if x == y => None,
         (Outcome::Ok(_), Outcome::Ok(_)) => Some(("annotation-changes-lua".into(), String::new())),
         (_, Outcome::Ok(_)) => Some(("annotated-variant-rejected".into(), a.short())),
+        (Outcome::Ok(_), _) => Some(("annotated-variant-rejected".into(), format!("accepted with the annotations, rejected without: {}", b.short()))),
         _ => None,
     }
 }
